@@ -119,6 +119,34 @@ func c01Check(cs c01Case) (ds []disc) {
 			return
 		}
 	}
+	// a sibling key that the fs backends' metadata file naming flattens to the same name
+	// ('/' and '\\' become '_'): it is stored with different metadata before and read after
+	sibling := ""
+	if strings.ContainsAny(key, "/\\") {
+		sib := strings.NewReplacer("/", "_", "\\", "_").Replace(key)
+		if sib != key && len(sib) <= 255 {
+			sibling = sib
+		}
+	} else if i := strings.IndexByte(key, '_'); i > 0 && i < len(key)-1 && !cs.Backend.IsFs() {
+		sibling = key[:i] + "/" + key[i+1:]
+	}
+	sibBody := []byte("sibling object of " + key)
+	if sibling != "" {
+		cleanup = append(cleanup, sibling)
+		if r := put(st, "bk0", sibling, sibBody, "X-Amz-Meta-Sibling", "yes", "Content-Type", "application/x-sibling"); r.Status != 200 {
+			fail("sibling-put", "cannot store the sibling key %q: %s", sibling, r)
+			return
+		}
+	}
+	defer func() {
+		if sibling == "" || len(ds) > 0 {
+			return
+		}
+		g := get(st, "bk0", sibling)
+		if g.Status != 200 || !bytes.Equal(g.Body, sibBody) || g.Header.Get("X-Amz-Meta-Sibling") != "yes" || g.Header.Get("Content-Type") != "application/x-sibling" || g.Header.Get("ETag") != etagOf(sibBody) {
+			fail("sibling-changed", "the upload changed the sibling key %q: GET %d, %d bytes, ETag %s, Content-Type %q, X-Amz-Meta-Sibling %q", sibling, g.Status, len(g.Body), g.Header.Get("ETag"), g.Header.Get("Content-Type"), g.Header.Get("X-Amz-Meta-Sibling"))
+		}
+	}()
 	metaSent := cs.Meta
 	switch cs.Path {
 	case "put", "put-md5", "copy":
@@ -209,6 +237,9 @@ func c01Check(cs c01Case) (ds []disc) {
 			if got := r.Header.Get(kv[0]); got != kv[1] {
 				fail("metadata", "%s header %s = %q, sent %q", method, kv[0], got, kv[1])
 			}
+		}
+		if r.Header.Get("X-Amz-Meta-Sibling") != "" {
+			fail("foreign-metadata", "%s returns X-Amz-Meta-Sibling, which was sent with a different key (%q)", method, sibling)
 		}
 	}
 	// --- listing entry
@@ -441,6 +472,9 @@ func c01Run(t *testing.T, c *evid.Collector) {
 		}
 		if cs.Overwrite {
 			labels = append(labels, "overwrite")
+		}
+		if strings.ContainsAny(cs.Key, "/\\") {
+			labels = append(labels, "with-flattening-sibling")
 		}
 		if cs.Frag.Mode != "" && cs.Frag.Mode != "whole" {
 			labels = append(labels, "fragmented-body")
